@@ -10,14 +10,26 @@ SAVE_EVENTS = ('write_chunk', 'save', 'archive_save_container', 'operator<<', 'o
 LOAD_EVENTS = ('read_chunk', 'read_chunk_as_string', 'load', 'archive_load_container', 'operator>>', 'operator&')
 
 
-def chunk_events(f, names):
+PRIM_SAVE = ('write_chunk',)
+PRIM_LOAD = ('read_chunk', 'read_chunk_as_string')
+
+
+def chunk_events(f, names, P=None):
+    """calls that perform (or may perform) chunk operations of the given direction: the archive primitives themselves, the
+    traits / operators by name, and any other cppcms helper with a body (its own operations are counted by flat_interval)"""
     out = []
+    prim = PRIM_SAVE if 'write_chunk' in names else PRIM_LOAD
     for i in f.calls():
         cn = f.bcallee(i) or ''
         sh = cn.rsplit('::', 1)[-1]
-        if sh not in names:
+        if cn.startswith(AR + '::'):
+            if sh in names:
+                out.append(i)
             continue
-        if cn.startswith(AR + '::') or cn.startswith('cppcms::archive_traits::') or cn.startswith('cppcms::details::') or cn.startswith('cppcms::operator'):
+        if sh in names and (cn.startswith('cppcms::archive_traits::') or cn.startswith('cppcms::details::') or cn.startswith('cppcms::operator')):
+            out.append(i)
+        elif P is not None and cn.startswith('cppcms::') and f.N(i).get('callee') in P.fns and P.fns[f.N(i)['callee']].entry is not None and \
+                (cn.startswith('cppcms::details::') or cn.startswith('cppcms::archive_traits::')):
             out.append(i)
     return out
 
@@ -28,7 +40,7 @@ def flat_interval(P, f, names, memo, depth=0):
         return memo[f.id]
     memo[f.id] = (1, 1)          # recursion guard (self-similar containers): count as one operation
     w = {}
-    for i in chunk_events(f, names):
+    for i in chunk_events(f, names, P):
         g = P.fns.get(f.N(i).get('callee'))
         if g is not None and depth < 6 and not g.bname.startswith(AR + '::'):
             iv = flat_interval(P, g, names, memo, depth + 1)
